@@ -29,6 +29,16 @@ func (Engine) Generate(r *core.Rng, property, tier string) *core.Plan {
 		// multisig actors: addresses controlled by M of N key-holding actors
 		p.SetKnob("multi", int64(r.Range(1, 2)))
 	}
+	if property == "C31" || property == "C05" && r.Bool(0.3) {
+		// a cross-chain ('X') address holding deposits, and the emergency
+		// policy thresholds inside the run: freeze from ccfreeze, restriction
+		// from ccfreeze+ccwindow (window 0: no freeze window at all)
+		p.SetKnob("ccactor", 1)
+		if property == "C31" || r.Bool(0.5) {
+			p.SetKnob("ccfreeze", p.Knob("maturity", 2)+5+int64(r.Intn(12)))
+			p.SetKnob("ccwindow", int64([]int{0, 1, 1, 2, 3, 5, 8, 30}[r.Intn(8)]))
+		}
+	}
 	n := r.Range(12, 45)
 	if tier == "thorough" {
 		n = r.Range(12, 80)
@@ -57,6 +67,8 @@ func (Engine) Generate(r *core.Rng, property, tier string) *core.Plan {
 		g.on["fork"], g.on["reorder"], g.on["badblock"] = true, true, true
 	case "C14":
 		g.on["fork"] = true
+	case "C31":
+		g.on["fork"], g.on["mempool"], g.on["reorder"] = true, true, true
 	case "C07":
 		g.on["badblock"] = true
 		g.badKinds = []string{"merkle", "dup-tx", "dup-tx", "second-coinbase", "no-coinbase"}
@@ -133,10 +145,24 @@ func (g *gen) goodTx() TxSpec {
 	if r.Bool(0.1) {
 		t.Amt = 5 // zero-value output: legal, must stay out of address lists
 	}
+	if g.p.Knob("ccactor", 0) > 0 {
+		// the cross-chain address sits right after the key holders: deposits
+		// arrive there and a Byzantine client tries to take them
+		cc := int(g.p.Knob("actors", 5))
+		if r.Bool(0.3) {
+			t.To[0] = cc
+		}
+		switch r.Pick(60, 25, 15) {
+		case 1:
+			t.From = cc
+		case 2:
+			t.InKind = 10 // an own output and a cross-chain output in one transaction
+		}
+	}
 	if nm := int(g.p.Knob("multi", 0)); nm > 0 {
 		// multisig actors sit right after the key-holding ones: pay them and
 		// spend from them often enough that both happen within a short run
-		first := int(g.p.Knob("actors", 5))
+		first := int(g.p.Knob("actors", 5) + g.p.Knob("ccactor", 0))
 		if r.Bool(0.25) {
 			t.To[0] = first + r.Intn(nm)
 		}
